@@ -441,6 +441,11 @@ func (a *oauth2IntrospectionAuthenticator) getCacheTTL(introspectResp *oauth2.In
 		func() time.Duration { return *a.ttl },
 		func() time.Duration { return 0 })
 
+	// the token is already expired or expires within the leeway: nothing to be cached, whatever has been configured
+	if introspectResp.Expiry != nil && introspectionResponseTTL == 0 {
+		return 0
+	}
+
 	switch {
 	case configuredTTL == 0 && introspectionResponseTTL == 0:
 		return 0
